@@ -280,6 +280,19 @@ func (x *bufExec) consumer(f []string) (int, bigbuff.Consumer) {
 	return i, x.cons[i]
 }
 
+// callLog wraps a Consumer and records which of its methods bigbuff.Range calls, in order
+type callLog struct {
+	bigbuff.Consumer
+	calls *[]byte
+}
+
+func (l callLog) Get(ctx context.Context) (interface{}, error) {
+	*l.calls = append(*l.calls, 'g')
+	return l.Consumer.Get(ctx)
+}
+func (l callLog) Commit() error   { *l.calls = append(*l.calls, 'c'); return l.Consumer.Commit() }
+func (l callLog) Rollback() error { *l.calls = append(*l.calls, 'r'); return l.Consumer.Rollback() }
+
 func (x *bufExec) rangeOp(f []string, useBuffer bool) string {
 	i, c := x.consumer(f)
 	if c == nil {
@@ -291,6 +304,7 @@ func (x *bufExec) rangeOp(f []string, useBuffer bool) string {
 	ctx, cancel := context.WithCancel(context.Background())
 	defer cancel()
 	var err error
+	var calls []byte
 	panicked := false
 	stopped := false
 	fn := func(index int, value interface{}) bool {
@@ -324,7 +338,7 @@ func (x *bufExec) rangeOp(f []string, useBuffer bool) string {
 		if useBuffer {
 			err = x.b.Range(ctx, c, fn)
 		} else {
-			err = bigbuff.Range(ctx, c, fn)
+			err = bigbuff.Range(ctx, callLog{c, &calls}, fn)
 		}
 	})
 	end := ""
@@ -341,6 +355,9 @@ func (x *bufExec) rangeOp(f []string, useBuffer bool) string {
 		end = "stopped"
 	default:
 		end = "diffstop"
+	}
+	if !useBuffer {
+		return fmt.Sprintf("vis=%s end=%s calls=%s", fmtInts(vis), end, calls)
 	}
 	return fmt.Sprintf("vis=%s end=%s", fmtInts(vis), end)
 }
